@@ -28,6 +28,8 @@ def main():
                 if nov and o['kind'] == 'nooverflow':
                     continue
                 print('  ', o['status'], o['kind'], 'line', o['line'], '|', o['text'][:160], '| instances', o['instances'])
+                if o.get('refuted_choices'):
+                    print('      choices:', o['refuted_choices'])
                 if o['status'] == 'refuted' and o.get('model'):
                     m = {k: v for k, v in o['model'].items() if not k.startswith(('issp', 'PyExc')) and '.obj.' not in k}
                     print('      model:', m)
